@@ -332,7 +332,7 @@ func runLINKNIL(c *Ctx) {
 			c.OK(pos, what, why, false)
 			continue
 		}
-		if why, ok := linkGuardExceptions["LINKNIL|"+ir.FuncName(fn)]; ok {
+		if why, ok := exceptionFor(c, fn, func(n string) (string, bool) { w, ok := linkGuardExceptions["LINKNIL|"+n]; return w, ok }, 0); ok {
 			c.OK(pos, what, "exception: "+why, false)
 			continue
 		}
